@@ -86,6 +86,12 @@ pub enum Node {
   Throw,
   Interval { p: u8, take: u8 },
   Timer { d: u8 },
+  /// unbounded interval (C16 producer)
+  Ticker { p: u8 },
+  /// from_iter over a counting iterator of n items (C16 producer)
+  PullIter(u8),
+  /// from_stream over an always-ready stream of n items that counts its polls
+  PollStream(u8),
   U(UOp, Box<Node>),
   B(BOp, Box<Node>, Box<Node>),
   /// merge_all(n) (None = flatten / unbounded) over `outer` whose items pick
@@ -98,6 +104,46 @@ pub enum Node {
 pub struct Counters {
   pub finalizers: AtomicU64,
   pub taps: AtomicU64,
+  /// global event stamps of every `Iterator::next` call of a PullIter
+  pub pulls: std::sync::Mutex<Vec<u64>>,
+  /// global event stamps of every `poll_next` call of a PollStream
+  pub polls: std::sync::Mutex<Vec<u64>>,
+}
+
+pub struct CountIt {
+  i: u8,
+  n: u8,
+  c: Arc<Counters>,
+}
+impl Iterator for CountIt {
+  type Item = Val;
+  fn next(&mut self) -> Option<Val> {
+    self.c.pulls.lock().unwrap().push(shared().stamp());
+    if self.i < self.n {
+      self.i += 1;
+      Some(Val::I(600 + self.i as i64))
+    } else {
+      None
+    }
+  }
+}
+
+pub struct CountStream {
+  i: u8,
+  n: u8,
+  c: Arc<Counters>,
+}
+impl futures::Stream for CountStream {
+  type Item = Val;
+  fn poll_next(mut self: std::pin::Pin<&mut Self>, _cx: &mut std::task::Context<'_>) -> std::task::Poll<Option<Val>> {
+    self.c.polls.lock().unwrap().push(shared().stamp());
+    if self.i < self.n {
+      self.i += 1;
+      std::task::Poll::Ready(Some(Val::I(650 + self.i as i64)))
+    } else {
+      std::task::Poll::Ready(None)
+    }
+  }
 }
 
 #[derive(Clone)]
@@ -141,6 +187,9 @@ macro_rules! build_fn {
           .on_error_map(|_| 0)
           .box_it(),
         Node::Timer { d } => observable::timer(Val::I(800), ms(*d), $sched).on_error_map(|_| 0).box_it(),
+        Node::Ticker { p } => observable::interval(ms((*p).max(1)), $sched).map(|i| Val::I(700 + i as i64)).on_error_map(|_| 0).box_it(),
+        Node::PullIter(n) => observable::from_iter(CountIt { i: 0, n: *n, c: env.counters.clone() }).on_error_map(|_| 0).box_it(),
+        Node::PollStream(n) => observable::from_stream(CountStream { i: 0, n: *n, c: env.counters.clone() }, $sched).on_error_map(|_| 0).box_it(),
         Node::B(op, a, b) => {
           let a = $fname(a, env);
           let b = $fname(b, env);
@@ -340,6 +389,9 @@ impl Node {
         Node::Throw => out.push("Throw".into()),
         Node::Interval { .. } => out.push("Interval".into()),
         Node::Timer { .. } => out.push("Timer".into()),
+        Node::Ticker { .. } => out.push("Ticker".into()),
+        Node::PullIter(_) => out.push("PullIter".into()),
+        Node::PollStream(_) => out.push("PollStream".into()),
       }
     }
     let mut v = Vec::new();
@@ -352,7 +404,7 @@ impl Node {
     self.op_names().iter().any(|n| {
       matches!(
         n.as_str(),
-        "Interval" | "Timer" | "Delay" | "DelaySubscription" | "SubscribeOn" | "ObserveOn" | "Debounce" | "Throttle" | "BufferTime" | "BufferCountTime" | "SampleInterval"
+        "Interval" | "Timer" | "Ticker" | "PollStream" | "Delay" | "DelaySubscription" | "SubscribeOn" | "ObserveOn" | "Debounce" | "Throttle" | "BufferTime" | "BufferCountTime" | "SampleInterval"
       )
     })
   }
@@ -367,6 +419,8 @@ impl Node {
       Node::Flat { outer, inners, .. } => inners.len() <= 4 && outer.valid(depth + 1) && inners.iter().all(|i| i.valid(depth + 1)),
       Node::Interval { p, take } => *p >= 1 && *take >= 1 && *take <= 20,
       Node::FromIter(n) => *n <= 20,
+      Node::Ticker { p } => *p >= 1,
+      Node::PullIter(n) | Node::PollStream(n) => *n <= 60,
       _ => true,
     }
   }
@@ -382,6 +436,8 @@ pub struct GenCfg {
   /// operators never generated (exercised in dedicated scenarios)
   pub exclude: Vec<&'static str>,
   pub allow_flat: bool,
+  /// leaves are mostly unbounded / counting producers (C16)
+  pub producer_leaves: bool,
 }
 
 fn gen_uop(rng: &mut Rng, cfg: &GenCfg) -> UOp {
@@ -460,6 +516,15 @@ fn gen_uop(rng: &mut Rng, cfg: &GenCfg) -> UOp {
 
 pub fn gen_node(rng: &mut Rng, cfg: &GenCfg, depth: usize) -> Node {
   let leaf = depth >= cfg.max_depth || rng.chance(1, 4 + depth);
+  if leaf && cfg.producer_leaves {
+    return match rng.below(13) {
+      0..=3 => Node::Ticker { p: *rng.pick(&[1u8, 2, 5]) },
+      4..=6 => Node::PullIter(rng.range(0, 40) as u8),
+      7 | 8 => Node::PollStream(rng.range(0, 40) as u8),
+      9..=11 => Node::Hot(rng.below(cfg.n_hot.max(1))),
+      _ => Node::Interval { p: *rng.pick(&[1u8, 2, 5]), take: rng.range(1, 4) as u8 },
+    };
+  }
   if leaf {
     return match rng.below(12) {
       0..=5 => Node::Hot(rng.below(cfg.n_hot.max(1))),
